@@ -71,6 +71,9 @@ func gennamesFindings(cx *CheckCtx) []Finding {
 	bin := filepath.Join(tmp, "gennames")
 	build := exec.Command("go", "build", "-o", bin, "./gennames")
 	build.Dir = "/repo"
+	if r := os.Getenv("VERIF_REPO"); r != "" {
+		build.Dir = r
+	}
 	if out, err := build.CombinedOutput(); err != nil {
 		cx.note("gennames does not build: " + trunc(string(out)))
 		return []Finding{{Property: "C18", Shape: "gennames-build", What: "gennames does not build: " + trunc(string(out))}}
